@@ -676,7 +676,7 @@ func TestVerifC20PathPairs(t *testing.T) {
 				}
 				if p.conf.shortTO {
 					// nobody will publish: the start timeout expires, requests fail, the command is stopped
-					awaitModel(kind+" started the on-demand command", c20SyncWait)
+					// (no comparison in between: the timer may fire before the harness gets to look)
 					sawTimeout = true
 					for _, hq := range p.held {
 						awaitReq(hq, "at the start timeout")
